@@ -320,14 +320,22 @@ def check_zero_helper(ctx: Ctx):
                 if v is not pair:
                     bad.setdefault("a pair with instances on both sides is passed through unchanged", []).append((p, r))
                 continue
-            if not (isinstance(v, Tagged) and v.name.endswith("PanopticaResult")):
+            evaluated = isinstance(v, Obj) and v.cls.name == "EvaluateInstancePair"
+            if not (isinstance(v, Tagged) and v.name.endswith("PanopticaResult")) and not evaluated:
                 bad.setdefault("an empty side produces a result object (no matching/evaluation on an empty side)", []).append((p, r))
                 continue
-            kw = dict(v.kwargs)
-            names = [x.name for x in rinit.call_params]
-            for i, a in enumerate(v.args):
-                if i < len(names):
-                    kw[names[i]] = a
+            if evaluated:
+                # the evaluated-pair record of "nothing matched": the result object is built from it by the
+                # pipeline's own result stage (wiring of handler / global metrics: R01.2)
+                kw = dict(v.attrs)
+                kw.setdefault("edge_case_handler", Sym("ECH"))
+                kw.setdefault("global_metrics", Sym("GLOBAL_METRICS"))
+            else:
+                kw = dict(v.kwargs)
+                names = [x.name for x in rinit.call_params]
+                for i, a in enumerate(v.args):
+                    if i < len(names):
+                        kw[names[i]] = a
             lm = kw.get("list_metrics")
             ok_lists = isinstance(lm, dict) and len(lm) == 3 and all(val == [] for val in lm.values()) and all(any(k is m or k == Sym(f"Metric.{m.attrs['_name_']}") for k in lm) for m in metrics[:3])
             checks = [
@@ -427,12 +435,51 @@ class PipelineState(ForwardFlow):
             if nm in self.STAGES:
                 return [(c, False) for c in self.STAGES[nm][1]]
             if nm == self.zero.name:
+                rc = self._return_classes(v)
+                if rc is not None and "<same>" in rc:
+                    return [((cls if k == "<same>" else k), True) for k in rc]
                 return [(cls, True), ("PanopticaResult", True)]
             if nm == "PanopticaResult":
                 return [("PanopticaResult", z)]
             if nm == "copy" and isinstance(v.func, ast.Attribute):
                 return [state]
+            # a helper of the package that receives the pipeline variable: what it can hand back is
+            # read off its return statements (its parameter unchanged / a freshly constructed object)
+            rc = self._return_classes(v)
+            if rc is not None:
+                return [((cls if k == "<same>" else k), z) for k in rc]
         raise Undecided(f"{self.f.qual}: unmodelled assignment to pipeline variable: {norm(st)}")
+
+    def _return_classes(self, call: ast.Call):
+        from .common import single_def
+
+        callees = [c for c in self.prog.resolve_call(self.f, call, self.env, fanout=False) if isinstance(c, Func)]
+        if len(callees) != 1:
+            return None
+        h = callees[0]
+        b, problems = bind_args(h, call)
+        if problems:
+            return None
+        param = next((pn for pn, a in b.items() if isinstance(a, ast.Name) and a.id == self.var), None)
+        out = []
+        rets = [r for r in walk_no_nested(h.node) if isinstance(r, ast.Return)]
+        if not rets:
+            return None
+        for r in rets:
+            e = r.value
+            if isinstance(e, ast.Name) and e.id == param:
+                out.append("<same>")
+                continue
+            if isinstance(e, ast.Name):
+                d = single_def(h, e.id)
+                e = d if d is not None else e
+            k = None
+            if isinstance(e, ast.Call):
+                k = self.prog.resolve_class_expr(h.module, e.func)
+            if k is None:
+                return None
+            out.append(k.name)
+        return sorted(set(out))
 
 
 def check_pipeline_typestate(ctx: Ctx):
